@@ -13,7 +13,7 @@ def chain(i, root, order, depth):
     elif root == 'exo':
         rl = ['%s = G' % t]
     elif root == 'lag':
-        rl = ['%s = q%d(k-1)' % (t, i), 'q%d = 0.5*q%d + G' % (i, i)]
+        rl = ['%s = q%d(k-1)' % (t, i), 'q%d = 0.25*%s + G' % (i, t)]
     elif root == 'dyn':
         rl = ['%s = 0.5*LT%d + G' % (t, i), 'LT%d = %s(k-1)' % (i, t)]
     else:
